@@ -55,6 +55,7 @@ ASSUMPTIONS = ['named model groups (xs:group ref) and xs:redefine are not genera
 KNOWN_ID = 'C14-F0'
 FINDINGS = VERIF / 'notes' / 'findings' / 'C14.json'
 FUEL = 4000
+KNOWN_SEEN: list[list[str]] = []      # every pair matched by C14-F0 on this run (v, base, derived)
 
 
 def known_match(case: dict, detail: dict) -> Optional[str]:
@@ -213,6 +214,7 @@ def run_batch(ctx: Ctx, drv: Optional[Driver], bases: list[tuple], v11: bool, fa
         fid = known_match(case, detail)
         if fid:
             ctx.known_hit(fid)
+            KNOWN_SEEN.append([case['v'], case['base'], case['derived']])
             ctx.count('known-unsound-acceptance:' + case['change'])
             ctx.extra.setdefault('known_examples', [])
             if len(ctx.extra['known_examples']) < 12:
@@ -288,6 +290,7 @@ def occurs_table(ctx: Ctx, drv: Optional[Driver]) -> None:
 def strict_sample(ctx: Ctx) -> None:
     """the lax-mode reading of the verdict agrees with a strict build (error class) on a sample"""
     import xmlschema
+    from xmlschema.validators.exceptions import XMLSchemaModelError
     rng = ctx.rng
     for v11 in (False, True):
         for _ in range(ctx.pick(12, 60)):
@@ -298,7 +301,7 @@ def strict_sample(ctx: Ctx) -> None:
             try:
                 c14.build([b], [[d]], v11, 'strict')
                 strict_ok = True
-            except xmlschema.XMLSchemaParseError:
+            except (xmlschema.XMLSchemaParseError, XMLSchemaModelError):
                 strict_ok = False
             ctx.traces += 1
             ctx.count(f'strict-sample:accepted={strict_ok}')
@@ -311,6 +314,11 @@ def run(ctx: Ctx, driver_ok: bool) -> None:
     drv = Driver('drv_c14') if driver_ok else None
     occurs_table(ctx, drv)
     strict_sample(ctx)
+    if drv is None:
+        ctx.notes.append('Lean driver unavailable: property evaluated on the enumerated family with the python '
+                         'reference matcher; known pairs = the list in notes/findings/C14.json')
+        lean_less(ctx)
+        return
     for fam, v11, bases, per_base in families(ctx):
         for k in range(0, len(bases), 6):
             if ctx.time_left() < 60:
@@ -320,17 +328,47 @@ def run(ctx: Ctx, driver_ok: bool) -> None:
 
 
 def search(ctx: Ctx) -> None:
+    """a proof obligation or the correspondence broke and no failing input was found yet: widen the
+    exploration (thorough families).  The Lean driver is used whenever its binary exists (the match rule
+    of C14-F0 needs the port); without it only the enumerated family is explored (`lean_less`)."""
     saved = ctx.tier
     ctx.tier = 'thorough'
     ctx.budget_s += 600
+    drv = Driver('drv_c14') if Driver('drv_c14').path.exists() else None
     try:
+        if drv is None:
+            lean_less(ctx)
+            return
+        n0 = len(ctx.mismatches)
         for fam, v11, bases, per_base in families(ctx):
             for k in range(0, len(bases), 6):
-                if ctx.failures or ctx.time_left() < 30:
+                if ctx.failures or ctx.time_left() < 30 or len(ctx.mismatches) > n0 + 200:
                     return
-                run_batch(ctx, None, bases[k:k + 6], v11, fam, per_base)
+                run_batch(ctx, drv, bases[k:k + 6], v11, fam, per_base)
     finally:
         ctx.tier = saved
+
+
+def enumerated_family():
+    """the fixed, seed-independent family whose unsound acceptances are listed one by one in
+    notes/findings/C14.json: a stride through the ≤2-leaf bases × every systematic candidate"""
+    enum = enumerated_bases()
+    return enum[::max(1, len(enum) // 60)][:60]
+
+
+def lean_less(ctx: Ctx) -> None:
+    import random
+    saved = ctx.rng
+    ctx.rng = random.Random(14)          # candidates are not sampled below (per_base is larger than any list)
+    try:
+        bases = enumerated_family()
+        for v11 in (False, True):
+            for k in range(0, len(bases), 6):
+                if ctx.time_left() < 30:
+                    return
+                run_batch(ctx, None, bases[k:k + 6], v11, 'enum2-fixed', 10 ** 6)
+    finally:
+        ctx.rng = saved
 
 
 def tup(x: Any) -> Any:
